@@ -528,7 +528,10 @@ func init() {
 		defer out.close()
 		reused := &model.P0x9212{}
 		m := jt808.NewJTMessage()
-		m.Body = []byte{1, 'x', 2, 1, 2, 0, 0, 0, 1, 0, 0, 0, 2, 0, 0, 0, 9, 0, 0, 0, 3} // the receiver has read a two-range report before
+		m.Body = []byte{1, 'x', 2, 1, 255} // the receiver has read the largest possible report before
+		for k := 0; k < 255; k++ {
+			m.Body = append(m.Body, 0, 1, byte(k), 0, 0, 0, 0, 7)
+		}
 		_ = reused.Parse(m)
 		if err := readND(a[0], func(i int, raw []byte) error {
 			var c missCase
